@@ -139,7 +139,7 @@ def sOut (r : Reply × List Action) : String :=
 
 def step : List String → String
   | ["req", key, pattern, method, path, query, keyhdr, options, corr,
-     rmatch, nsget, nslist, lookup, connect, pyroerrs, bind, meta, result] =>
+     rmatch, nsget, nslist, lookup, connect, pyroerrs, bind, metaTok, result] =>
     let r : Option String := do
       let key : Option Bytes ← if key == "none" then some none else (hexToBytes key).map some
       let pattern : Option Str ← if pattern == "none" then some none else (pStr pattern).map some
@@ -160,7 +160,7 @@ def step : List String → String
       let ctab ← pClsTable connect
       let btab ← pClsTable bind
       let perr ← if pyroerrs == "~" then some [] else (pyroerrs.splitOn ";").mapM pCls
-      let m ← pMeta meta
+      let m ← pMeta metaTok
       let res ← pResult result
       let be (dflt : Bool) : Backend := {
         rmatch := fun p n => if some p = pattern then (match assoc n rtab with | some b => b | none => dflt) else dflt
